@@ -370,7 +370,7 @@ func c08online(c *rig.Ctx) {
 	}
 
 	specsSession := []gcSpec{{Mode: "default", Archive: 1}, {Mode: "full", Archive: 0}, {Mode: "shallow"}, {Mode: "default", Archive: 0}, {Mode: "full", Archive: 1}}
-	roundsA, roundsB := c.Pick(4, 24), c.Pick(3, 16)
+	roundsA, roundsB := c.Pick(4, 16), c.Pick(3, 10)
 	round := 0
 	phase := func(s *sqlrig.Server, n int, kill bool) {
 		var stop atomic.Bool
